@@ -2151,6 +2151,12 @@ func (d *Data) updateMaxLabel(v dvid.VersionID, label uint64) (changed bool, err
 	d.mlMu.Lock()
 	defer d.mlMu.Unlock()
 
+	// re-check under the write lock: a concurrent update may have raised the maximum since the
+	// read-locked test above, and it must never be lowered.
+	if curMax, found := d.MaxLabel[v]; found && curMax >= label {
+		changed = false
+		return
+	}
 	d.MaxLabel[v] = label
 	if err = d.persistMaxLabel(v); err != nil {
 		err = fmt.Errorf("updateMaxLabel of data %q: %v", d.DataName(), err)
@@ -2183,6 +2189,11 @@ func (d *Data) updateBlockMaxLabel(v dvid.VersionID, block *labels.Block) {
 	}
 	if changed {
 		d.mlMu.Lock()
+		// re-check under the write lock so that a concurrent update is never lowered
+		if prevMax, found := d.MaxLabel[v]; found && prevMax >= curMax {
+			d.mlMu.Unlock()
+			return
+		}
 		d.MaxLabel[v] = curMax
 		if err := d.persistMaxLabel(v); err != nil {
 			dvid.Errorf("updateBlockMaxLabel of data %q: %v\n", d.DataName(), err)
